@@ -474,6 +474,19 @@ def value_attr(M, it, base, attr):
                     n = it.p.concretize(v.len, limit=40, what='from_bytes length')
                 return mk_num(v.be_int(0, n))
             return bm(fb)
+        if base.name == 'bytes' and attr == 'decode':
+            def bdec(it, a, kw):
+                v = a[0]
+                if isinstance(v, (bytes, bytearray)):
+                    return bytes(v).decode(*a[1:], **kw)
+                if isinstance(v, SBytes):
+                    if it.branch(v.len == 0):
+                        return ''
+                    if it.light:
+                        return it.opaque_call('decode of symbolic bytes')
+                    raise Unsupported('bytes.decode of non-empty symbolic bytes')
+                raise_builtin('TypeError', "descriptor 'decode' requires a bytes object")
+            return bm(bdec)
         if base.name == 'bytes' and attr == 'fromhex':
             return bm(lambda it, a, kw: bytes.fromhex(a[0]) if isinstance(a[0], str) else _unsupported('fromhex'))
         raise Unsupported('%s.%s' % (base.name, attr))
